@@ -3,7 +3,7 @@ from pv import propkit as K, native
 from pv.core import PropResult, Ob
 
 LEVEL = 'proof'
-EXPLANATION = ('K1: CompositeBaseToken.get (ordered-choice parser with dynamic class dispatch; two loops, own contract as '
+EXPLANATION = ('K1: CompositeBaseToken.get / _get (get answers from _get, which functools.lru_cache memoises - K5; _get is the ordered-choice parser with dynamic class dispatch; two loops, own contract as '
                'induction hypothesis for the recursive call) returns either (None, the untouched token list) or a token that '
                'covers exactly a non-empty prefix of the lexer tokens, leaves in order, whose children match one token set of '
                'its class, plus the untouched suffix - nothing is dropped, duplicated or reordered; AstBuilder.parse returns '
@@ -12,7 +12,7 @@ EXPLANATION = ('K1: CompositeBaseToken.get (ordered-choice parser with dynamic c
                'the empty string, no left recursion (termination), both separators are one token class. The regex lexer '
                '(whitespace, line breaks, token extraction) is bounded.')
 K1 = ['AstBuilder.parse']
-K1_GET = ['CompositeBaseToken.get']
+K1_GET = ['CompositeBaseToken.get', 'CompositeBaseToken._get']
 
 
 def _grammar(res):
@@ -82,7 +82,11 @@ def run(ctx):
     res.assumptions += ['tokens are modelled as immutable values (lexer token: width 1; composite: node(class, parts)); the set '
                         'comprehension deciding the control-construction flag is abstracted (it only chooses between returning None '
                         'and raising the parser exception)', 'partial correctness of the recursion; termination from '
-                        'C05.Grammar.no_left_recursion + C05.Lexer.progress', 'message arguments of raised exceptions are not evaluated']
+                        'C05.Grammar.no_left_recursion + C05.Lexer.progress', 'message arguments of raised exceptions are not evaluated',
+                        'K5 functools.lru_cache (decorator of CompositeBaseToken._get, ignored by the VC generator): a cached answer is '
+                        'an answer the function gave for equal (cls, tuple of the same token objects, cell) - the function reads only '
+                        'immutable class data and its arguments, and the token objects it returns are never mutated afterwards except '
+                        'for IterableExpressionToken._expressions (an idempotent cache); AstBuilder.parse clears the cache per formula']
     return res
 
 
